@@ -949,19 +949,43 @@ class P(Prop):
         if out.get("invalid"):
             return None
         sym = W.Sym(case)
+        prev_heap = []
         for j, (op, rec) in enumerate(zip(case["hist"], out["ops"])):
-            msg = self.w_check(sym, op, rec)
+            msg = self.w_check(sym, op, rec, prev_heap)
             if msg:
                 return "operation %d %s: %s" % (j, json_short(op), msg)
+            prev_heap = rec["heap"]
         return None
 
-    def w_check(self, sym, op, rec):
-        kind, k = op[0], op[1]
+    def w_sync(self, sym, k, table, heap):
+        """WHICH names a track lists and how many feature slots an observation carries are the implementation's business
+        (the statement speaks of abs_curv and speed, not of the temporary ds nor of what a derived track inherits): the
+        bookkeeping adopts what the implementation's table shows; a name that is gone is no longer a valid computation"""
+        if sym.lost:
+            return
+        t = sym.tracks[k]
+        t["names"] = list(table["names"])
+        t["valid"] &= set(t["names"])
+        for h, o in enumerate(heap[:len(sym.slots)]):
+            sym.slots[h] = o["nf"]
+
+    def w_check(self, sym, op, rec, prev_heap=()):
         if sym.lost:
             return None
+        self.w_sync(sym, op[1], rec["pre"], prev_heap)
+        msg = self.w_check1(sym, op, rec)
+        self.w_sync(sym, op[1], rec["post"], rec["heap"])
+        return msg
+
+    def w_check1(self, sym, op, rec):
+        kind, k = op[0], op[1]
+        applicable = sym.valid_op(op)        # on the table the implementation shows: the names the operation refers to are listed
         ok = sym.ok(k)
         mono = sym.monotone(k)
-        info = sym.apply(op)                 # bookkeeping: positions / stamps after edits, names, slots, validity
+        if not applicable and (kind in W.NEW_OPS or kind in W.EDIT_OPS):
+            sym.lost = True                  # cannot happen on a valid case (indices only): the oracle stops rather than guess
+            return None
+        info = sym.apply(op) if applicable else {"check": None}     # bookkeeping: positions / stamps after edits, names, slots, validity
         ids = sym.tracks[k]["ids"]
         n = len(ids)
         heap = rec["heap"]
@@ -996,7 +1020,7 @@ class P(Prop):
                 return "position of observation %d is %s, expected %s" % (h, o["xyz"], sym.pos[h])
             if o["t"] != [sym.fld[h][f] for f in W.ZFIELDS]:
                 return "timestamp of observation %d is %s (year, month, day, hour, min, sec, ms, zone), expected %s" % (h, o["t"], [sym.fld[h][f] for f in W.ZFIELDS])
-        if kind in W.NEW_OPS or kind in W.EDIT_OPS:
+        if kind in W.NEW_OPS or kind in W.EDIT_OPS or not applicable:
             return None
         if not ok:
             if "err" in rec:
